@@ -1181,6 +1181,11 @@ fn multiline_docs(p: &P, tag: u64) -> Array1<String> {
     let d = docs(p, tag);
     Array1::from(d.iter().enumerate().map(|(i, s)| if i % 2 == 0 { s.replacen(' ', "\n", 2) } else { format!("{s}\nlast line") }).collect::<Vec<_>>())
 }
+/// a token pattern whose compiled program is large (bounded repetition of a Unicode class):
+/// accepted when the vectoriser is built, it must be accepted when the vectoriser is restored
+fn build_cv_large_regex(p: &P) -> CountVectorizer {
+    CountVectorizer::params().tokenizer(Tokenizer::Regex(r"\b\w{2,60}\b".to_string())).fit(&train_docs(p)).expect("count-vectoriser fit")
+}
 fn build_cv_anchored(p: &P) -> CountVectorizer {
     CountVectorizer::params().tokenizer(Tokenizer::Regex(r"^\w+|\w\w+$".to_string())).fit(&multiline_docs(p, 51)).expect("count-vectoriser fit")
 }
@@ -1578,6 +1583,7 @@ pub fn register(r: &mut Registry) {
     r.model::<CountVectorizer>("cv_model_combined", PRE, CVM, None, build_cv::<8>, fp_cv, None);
     r.model::<CountVectorizer>("cv_model_regex_tokenizer", PRE, CVM, None, build_cv::<9>, fp_cv, None);
     r.model::<CountVectorizer>("cv_model_regex_anchored_multiline", PRE, CVM, None, build_cv_anchored, fp_cv_anchored, None);
+    r.model::<CountVectorizer>("cv_model_regex_large_program", PRE, CVM, None, build_cv_large_regex, fp_cv, None);
     r.scenario("cv_params_reused", PRE, Kind::Claim, false, cv_params_reused);
     r.model::<CountVectorizer>("cv_model_given_vocabulary", PRE, CVM, None, build_cv_given::<2>, fp_cv, None);
     r.model::<CountVectorizer>("cv_model_fn_tokenizer", PRE, CVM, None, build_cv::<10>, fp_cv_fn_tokenizer, None);
